@@ -1043,3 +1043,72 @@ def rule_group_merge_mentions(ctx, R):
                           "outcome %s; merged items %r, expected "
                           "['a', 'b', 'b', 'c']" % (out[0], got))
     ctx.exhaustive[R] = True
+
+
+# --------------------------------------------------------------------------
+def rule_required_links(ctx, R):
+    """shared by C01 and C03: which links a GFA1 path requires"""
+    ctx.rule(R, "Path._compute_required_links: a path over n segments "
+             "requires the n-1 links between consecutive segments (each with "
+             "its overlap, or the placeholder when the overlaps are a single "
+             "'*'), plus the link from the last to the first exactly when "
+             "n > 1 overlaps close the circle; a one-segment path requires "
+             "none; too few overlaps is an InconsistencyError", floor=9)
+    repo = ctx.repo
+    P = repo.cls("line.group.Path")
+    f = ctx.anchor("Path._compute_required_links",
+                   P.find_method("_compute_required_links"))
+    PH = repo.cls("AlignmentPlaceholder")
+    OLc = repo.cls("OrientedLine")
+
+    class RH(LineHooks):
+        def construct(self, ev, cls, args, kwargs):
+            if cls is PH:
+                return Abs(PH, label="*", __bool__=False)
+            return super().construct(ev, cls, args, kwargs)
+
+        def function(self, ev, node, args, kwargs):
+            if unparse(node.func).endswith("is_placeholder") and \
+                    len(args) == 1:
+                a = args[0]
+                return isinstance(a, Abs) and a.cls is PH
+            return super().function(ev, node, args, kwargs)
+    for n, ovs in ((1, ["*"]), (1, ["o0"]), (2, ["*"]), (2, ["o0"]),
+                   (2, ["o0", "o1"]), (3, ["*"]), (3, ["o0", "o1"]),
+                   (3, ["o0", "o1", "o2"]), (3, ["o0"]), (4, ["o0", "o1"])):
+        ctx.instance(R)
+        segs = [Abs(OLc, label="s%d+" % i, name="s%d" % i, orient="+")
+                for i in range(n)]
+        overlaps = [Abs(PH, label="*", __bool__=False) if o == "*" else
+                    Abs(None, label=o) for o in ovs]
+        p = Abs(P, label="path", segment_names=segs, overlaps=overlaps)
+        out = eval_function(repo, f, [p], hooks=RH(repo))
+        undef = ovs == ["*"]
+        if n == 1:
+            want = []
+        elif undef:
+            want = [(i, i + 1, "*") for i in range(n - 1)]
+        elif len(ovs) < n - 1:
+            want = "InconsistencyError"
+        else:
+            want = [(i, i + 1, ovs[i]) for i in range(n - 1)]
+            if len(ovs) == n:
+                want.append((n - 1, 0, ovs[n - 1]))
+        if want == "InconsistencyError":
+            ok = out[0] == "raise" and str(out[1]).endswith(want)
+            got = out[0:2]
+        elif out[0] != "return" or not isinstance(out[1], list):
+            ok, got = False, out[0:2]
+        else:
+            got = []
+            for item in out[1]:
+                a, b, c = item
+                got.append((segs.index(a) if a in segs else a,
+                            segs.index(b) if b in segs else b,
+                            c.label if isinstance(c, Abs) else c))
+            ok = got == want
+        ctx.oblige(ok)
+        if not ok:
+            ctx.violation(R, f.short, "segments=%d,overlaps=%s" % (
+                n, ",".join(ovs)), "requires %r, expected %r" % (got, want))
+    ctx.exhaustive[R] = True
